@@ -907,6 +907,106 @@ async fn slow_send_case(seed: u64, cycles: usize) -> (Vec<(String, String)>, [us
 	(violations, client.verif_table_sizes(), acked)
 }
 
+/// Directed scenario: a call is given up by its caller (future dropped) while its message is still queued behind a send that
+/// has not returned (the transport is slow): whether or not the client still sends it, nothing of it may stay behind once
+/// everything that did go out has been answered.
+async fn abandoned_while_queued_case(seed: u64, cycles: usize) -> (Vec<(String, String)>, usize) {
+	let mut violations = Vec::new();
+	let mut r = Rng::new(seed);
+	let (client, mut srv) = jrv::clientsim::client(ClientCfg { string_ids: r.bool(), build_path: r.below(4) as u8, ..Default::default() });
+	let mut abandoned = 0usize;
+	for cyc in 0..cycles {
+		let gate = std::sync::Arc::new(tokio::sync::Notify::new());
+		*srv.ctl.send_gate.lock().unwrap() = Some(gate.clone());
+		// the first operation occupies the send task inside `send`
+		let c = client.clone();
+		let first = tokio::spawn(async move { c.request::<Value, _>("call", rpc_params!["first"]).await.map(|_| ()).map_err(|e| err_kind(&e)) });
+		settle().await;
+		// operations queued behind it, some of them given up before the send task gets to them
+		let mut kept = Vec::new();
+		for k in 0..1 + r.usize(3) {
+			let c = client.clone();
+			let kind = r.below(3);
+			let t = tokio::spawn(async move {
+				match kind {
+					0 => c.request::<Value, _>("call", rpc_params![k]).await.map(|_| ()).map_err(|e| err_kind(&e)),
+					1 => {
+						let mut b = BatchRequestBuilder::new();
+						b.insert("call", rpc_params![k]).unwrap();
+						let r: Result<BatchResponse<Value>, _> = c.batch_request(b).await;
+						r.map(|_| ()).map_err(|e| err_kind(&e))
+					}
+					_ => c.subscribe::<Value, _>("sub", rpc_params![k], "unsub").await.map(|_| ()).map_err(|e| err_kind(&e)),
+				}
+			});
+			settle().await;
+			if r.chance(2, 3) {
+				t.abort();
+				let _ = t.await;
+				abandoned += 1;
+			} else {
+				kept.push(t);
+			}
+		}
+		settle().await;
+		*srv.ctl.send_gate.lock().unwrap() = None;
+		// the transport moves again; the server answers everything that reaches it, subscriptions included, and acknowledges
+		// every unsubscribe call
+		for _ in 0..12 {
+			gate.notify_waiters();
+			gate.notify_one();
+			settle().await;
+			for m in srv.drain_out() {
+				if let ClientOut::Msg { text, .. } = m {
+					match parse_wire(&text) {
+						WireMsg::Single(q) => {
+							if let Some(id) = &q.id {
+								let result = match q.method.as_str() {
+									"sub" => json!(format!("aq-{cyc}-{id}")),
+									"unsub" => json!(true),
+									_ => json!("fine"),
+								};
+								srv.push_text(ok_response(id, result));
+							}
+						}
+						WireMsg::Batch(reqs) => {
+							let parts: Vec<String> = reqs.iter().map(|q| ok_response(q.id.as_ref().unwrap_or(&Value::Null), json!(1))).collect();
+							srv.push_text(array_of(&parts));
+						}
+						_ => {}
+					}
+				}
+			}
+		}
+		let _ = tokio::time::timeout(Duration::from_secs(30), first).await;
+		for t in kept {
+			// (subscriptions that were kept are dropped with the task's result: their unsubscribe is acknowledged above)
+			let _ = tokio::time::timeout(Duration::from_secs(30), t).await;
+		}
+		for _ in 0..4 {
+			settle().await;
+			for m in srv.drain_out() {
+				if let ClientOut::Msg { text, .. } = m {
+					if let WireMsg::Single(q) = parse_wire(&text) {
+						if let Some(id) = &q.id {
+							srv.push_text(ok_response(id, if q.method == "unsub" { json!(true) } else { json!("fine") }));
+						}
+					}
+				}
+			}
+		}
+		let sizes = client.verif_table_sizes();
+		if sizes != [0, 0, 0, 0] {
+			violations.push((
+				"tables-not-empty-when-idle/operation-abandoned-while-queued-behind-a-slow-send".to_string(),
+				format!("cycle {cyc}: operations were given up by their callers while their messages waited behind a send that had not returned; everything that reached the server was answered, the tables hold {sizes:?} (requests, subscriptions, batches, handlers)"),
+			));
+			break;
+		}
+	}
+	(violations, abandoned)
+}
+
 /// Which kind of cycle the history contained (for signatures): the last subscription-ending step kinds seen.
 fn leak_feature(steps: &[Step]) -> String {
 	let mut f: Vec<&str> = Vec::new();
@@ -997,6 +1097,19 @@ fn directed_specs(reps: usize) -> Vec<(Spec, String)> {
 			],
 		),
 		("duplicate-sub-id", vec![Step::Subscribe(0, SubAnswer::Accept), Step::Subscribe(1, SubAnswer::DuplicateSubId), Step::Unsubscribe(0), Step::Ack(0)]),
+		(
+			"lag-close-then-its-id-issued-again-then-lag-close",
+			vec![
+				Step::Subscribe(0, SubAnswer::Accept),
+				Step::LagClose(0),
+				Step::Ack(0),
+				Step::Subscribe(1, SubAnswer::ReuseEndedId),
+				Step::LagClose(1),
+				Step::Ack(0),
+				Step::Drop(0),
+				Step::Drop(1),
+			],
+		),
 		(
 			"lag-inside-a-mixed-array-with-close",
 			vec![Step::Subscribe(0, SubAnswer::Accept), Step::Subscribe(1, SubAnswer::Accept), Step::MixedArray { lag: 0, close: 1, with_call: false, with_batch: false }, Step::Ack(0), Step::Drop(0), Step::Drop(1)],
@@ -1101,7 +1214,7 @@ fn main() {
 		replay_class = Some(class.clone());
 		replay_seed = w["witness"]["seed"].as_u64();
 		replay_cycles = w["witness"]["cycles"].as_u64().map(|c| c as usize);
-		if class == "full-queue" || class == "unsub-write-refused" || class == "slow-send" {
+		if class == "full-queue" || class == "unsub-write-refused" || class == "slow-send" || class == "abandoned-while-queued" {
 			// replayed by the directed families below
 		} else if class == "seeded" {
 			specs.push((gen_spec(w["witness"]["seed"].as_u64().expect("seed")), class));
@@ -1135,6 +1248,24 @@ fn main() {
 			ev.nontrivial(&("full-queue-drop", s));
 			for (sig, d) in v {
 				violations.push(Violation::new(sig, d, json!({"scenario": "drop with a full request queue", "seed": s, "cycles": cycles, "class": "full-queue"})));
+			}
+		}
+	}
+	if !replay || replay_class.as_deref() == Some("abandoned-while-queued") {
+		let jobs: Vec<(u64, usize)> = match (&replay_seed, replay) {
+			(Some(s), true) => vec![(*s, replay_cycles.unwrap_or(3))],
+			_ => (0..ctx.tier.pick(300u64, 20_000)).map(|i| (Rng::fork(ctx.seed, 91_000_000 + i).next_u64(), if i % 50 == 0 { 60 } else { 1 + (i % 4) as usize })).collect(),
+		};
+		let res = run_parallel(jobs, |_, (s, cycles)| (s, cycles, block_on_virtual(abandoned_while_queued_case(s, cycles))));
+		for (s, cycles, (v, abandoned)) in res {
+			ev.eval();
+			ev.count("cases_operations_abandoned_while_queued", 1);
+			ev.count("operations_abandoned_while_queued_behind_a_slow_send", abandoned as u64);
+			if abandoned > 0 {
+				ev.nontrivial(&("abandoned-while-queued", s));
+			}
+			for (sig, d) in v {
+				violations.push(Violation::new(sig, d, json!({"scenario": "operations abandoned while queued behind a slow send", "seed": s, "cycles": cycles, "class": "abandoned-while-queued"})));
 			}
 		}
 	}
